@@ -207,6 +207,7 @@ func closureLiterals(p *tr.Pkg, roots func(*ast.FuncDecl) bool) []string {
 		}
 	}
 	seen := map[*ast.FuncDecl]bool{}
+	consts := map[string]bool{}
 	var visit func(fd *ast.FuncDecl)
 	visit = func(fd *ast.FuncDecl) {
 		if fd == nil || fd.Body == nil || seen[fd] {
@@ -225,6 +226,10 @@ func closureLiterals(p *tr.Pkg, roots func(*ast.FuncDecl) bool) []string {
 				if fn, ok := p.Info.Uses[id].(*types.Func); ok && fn.Pkg() == p.Types {
 					visit(byObj[fn])
 				}
+				// a literal moved into a package-level string constant still counts
+				if c, ok := p.Info.Uses[id].(*types.Const); ok && c.Pkg() == p.Types && c.Val().Kind() == constant.String {
+					consts[constant.StringVal(c.Val())] = true
+				}
 			}
 			return true
 		})
@@ -235,6 +240,9 @@ func closureLiterals(p *tr.Pkg, roots func(*ast.FuncDecl) bool) []string {
 		}
 	}
 	set := map[string]bool{}
+	for x := range consts {
+		set[x] = true
+	}
 	for fd := range seen {
 		strs, _, _ := p.Literals(fd)
 		for _, x := range strs {
